@@ -13,6 +13,7 @@ Definition name_str (n : name) : string :=
   | NMapValue => "__map_value"
   | NSetElem => "__set_elem"
   | NSetIdx => "__set_idx"
+  | NSetSrc => "__set_src"
   | NSetColl => "__set_coll"
   | NSetPred i => "__set_pred_" ++ nat_to_string i
   | NSetPreds => "__set_preds"
@@ -125,19 +126,19 @@ Fixpoint pp_stmt (s : stmt) : list tok :=
            flat_map pp_stmt body; pp_push p]
   | SSeq body => flat_map pp_stmt body
   | STuple e binders body =>
-      tpl SCall "# [ allow ( unreachable_patterns ) ] match $0 { ( $1 ) => { $2 } , _ => unreachable ! ( $3 ) , }"
+      tpl SCall "# [ allow ( unreachable_patterns ) ] match & $0 { ( $1 ) => { $2 } , _ => unreachable ! ( $3 ) , }"
           [pp_vexpr e; sep_by (comma SCall) (map (pp_binder NTupleElem) binders);
            flat_map pp_stmt body; str_lit "Plain tuple match should always succeed" SCall]
-  | SRange sp e r p =>
+  | SRange sp e r _ p =>
       tpl sp "match & $0 { $1 => { } , _ => { $2 } }" [pp_vexpr e; r; pp_push p]
   | SSlice e parts body p =>
       tpl SCall "match ( $0 ) . as_slice ( ) { [ $1 ] => { $2 } _ => { $3 } }"
           [pp_vexpr e; sep_by (comma SCall) (map pp_part parts); flat_map pp_stmt body; pp_push p]
   | SRegex sp e pattern p =>
-      tpl sp "{ use :: assert_struct :: Like ; let __assert_struct_re = :: assert_struct :: __macro_support :: Regex :: new ( $0 ) . expect ( concat ! ( $1 , $0 ) ) ; if ! $2 . like ( & __assert_struct_re ) { $3 } }"
+      tpl sp "{ use :: assert_struct :: Like ; let __assert_struct_re = :: assert_struct :: __macro_support :: Regex :: new ( $0 ) . expect ( concat ! ( $1 , $0 ) ) ; if ! ( $2 ) . like ( & __assert_struct_re ) { $3 } }"
           [str_lit pattern SCall; str_lit "Invalid regex pattern: " sp; pp_vexpr e; pp_push p]
   | SLike sp e x p =>
-      tpl sp "{ use :: assert_struct :: Like ; if ! $0 . like ( & $1 ) { $2 } }" [pp_vexpr e; u_toks x; pp_push p]
+      tpl sp "{ use :: assert_struct :: Like ; if ! ( $0 ) . like ( & $1 ) { $2 } }" [pp_vexpr e; u_toks x; pp_push p]
   | SClosure sp e c p =>
       tpl sp "{ if ! :: assert_struct :: __macro_support :: check_closure_condition ( $0 , $1 ) { $2 } }"
           [pp_vexpr e; u_toks c; pp_push p]
@@ -156,7 +157,7 @@ Fixpoint pp_stmt (s : stmt) : list tok :=
                        [ident (name_str (NSetPred i)); pp_stmt pr]) preds) in
       let pred_refs :=
         sep_by (comma SCall) (mapi (fun i _ => tpl SCall "& $0" [ident (name_str (NSetPred i))]) preds) in
-      tpl SCall "{ let __set_coll : :: std :: vec :: Vec < _ > = ( & ( $0 ) ) . into_iter ( ) . collect ( ) ; $1 let __set_preds : & [ & dyn :: std :: ops :: Fn ( usize ) -> bool ] = & [ $2 ] ; :: assert_struct :: __macro_support :: set_match ( __set_coll . len ( ) , $3 , __set_preds , & mut __report , & $4 , ) ; }"
+      tpl SCall "{ let __set_src = & ( $0 ) ; let __set_coll : :: std :: vec :: Vec < _ > = __set_src . into_iter ( ) . collect ( ) ; $1 let __set_preds : & [ & dyn :: std :: ops :: Fn ( usize ) -> bool ] = & [ $2 ] ; :: assert_struct :: __macro_support :: set_match ( __set_coll . len ( ) , $3 , __set_preds , & mut __report , & $4 , ) ; }"
           [pp_vexpr e; pred_defs; pred_refs; bool_tok rest; node_ident node]
   end.
 
